@@ -334,6 +334,17 @@ theorem lowerE_mono : ∀ (e : Expr) (c : Nat) (code : Code) (v : Value) (c' : N
     have ⟨m1, b1⟩ := lowerE_mono e _ cr vr c1 h1
     have ⟨a1, _⟩ := atv_spec vr c1 b1
     exact ⟨by omega, trivial⟩
+  | .assignF x i e, c, code, v, c', h => by
+    simp [lowerE, Option.bind_eq_some_iff] at h
+    obtain ⟨ce, ve, c1, h1, _, rfl, rfl⟩ := h
+    have ⟨m1, _⟩ := lowerE_mono e _ ce ve c1 h1
+    exact ⟨by omega, trivial⟩
+  | .cassignF op x i e, c, code, v, c', h => by
+    simp [lowerE, Option.bind_eq_some_iff] at h
+    obtain ⟨_, cr, vr, c1, h1, _, rfl, rfl⟩ := h
+    have ⟨m1, b1⟩ := lowerE_mono e _ cr vr c1 h1
+    have ⟨a1, _⟩ := atv_spec vr c1 b1
+    exact ⟨by omega, trivial⟩
   | .ret e, c, code, v, c', h => by
     simp [lowerE, Option.bind_eq_some_iff] at h
     obtain ⟨ce, ve, c1, h1, _, rfl, rfl⟩ := h
@@ -674,6 +685,14 @@ theorem lowerE_valueBound (e : Expr) (c : Nat) (code : Code) (v : Value) (c' : N
     simp [lowerE, Option.bind_eq_some_iff] at h
     obtain ⟨_, _, _, _, _, _, rfl, _⟩ := h
     simp [Value.vars] at hk
+  | assignF x i e1 =>
+    simp [lowerE, Option.bind_eq_some_iff] at h
+    obtain ⟨_, _, _, _, _, rfl, _⟩ := h
+    simp [Value.vars] at hk
+  | cassignF op x i e1 =>
+    simp [lowerE, Option.bind_eq_some_iff] at h
+    obtain ⟨_, _, _, _, _, _, rfl, _⟩ := h
+    simp [Value.vars] at hk
   | ret e1 =>
     simp [lowerE, Option.bind_eq_some_iff] at h
     obtain ⟨_, _, _, _, _, rfl, _⟩ := h
@@ -929,6 +948,8 @@ theorem lowerE_moveLower (e : Expr) (c : Nat) (code : Code) (x : Var) (c' : Nat)
   | «while» cnd b => simp [lowerE, Option.bind_eq_some_iff] at h
   | assign y e1 => simp [lowerE, Option.bind_eq_some_iff] at h
   | cassign op y e1 => simp [lowerE, Option.bind_eq_some_iff] at h
+  | assignF y i e1 => simp [lowerE, Option.bind_eq_some_iff] at h
+  | cassignF op y i e1 => simp [lowerE, Option.bind_eq_some_iff] at h
   | ret e1 => simp [lowerE, Option.bind_eq_some_iff] at h
   | accept e1 => simp [lowerE, Option.bind_eq_some_iff] at h
   | reject e1 => simp [lowerE, Option.bind_eq_some_iff] at h
